@@ -1,7 +1,76 @@
-(** C01 - placeholder obligations until BfsProofs lands: the loop combinator used by the BFS model. *)
-From Coq Require Import ZArith List.
-From V Require Import Base BaseProofs.
+(** C01 - BFS layers are exactly the distance classes of the Schreier graph. Statements only.
+    [bfs] is the statement-by-statement model of BfsAlgorithm.bfs (Bfs.v); [layer] are the textbook
+    layers, which GraphProofs.ref_layers_dist proves to be the distance classes. *)
+From Coq Require Import ZArith List Arith.
+From V Require Import Base BaseProofs Tensor Graph GraphProofs GraphImpl Bfs BfsStep BfsProofs.
+Import ListNotations.
 
+(* the mathematical core: textbook layers = distance classes, on every graph *)
+Theorem C01_layers_are_distance_classes :
+  forall (St : Type) (eq_dec : forall a b : St, {a = b} + {a <> b}) (gens : list (St -> St)) S i t,
+  In t (layer St eq_dec gens S i) <-> dist_is St gens S t i.
+Proof. exact ref_layers_dist. Qed.
+Print Assumptions C01_layers_are_distance_classes.
+
+(* an exhaustive run of the BFS model: sizes, stored layers, eccentricity are those of the graph.
+   U = the states the run can touch; NoColl = no hash collision on U (the exception the property grants). *)
+Theorem C01_bfs_completed_correct :
+  forall (G : impl) (cfg : bfs_cfg) (U : state -> Prop),
+  closed state (acts G) U ->
+  (forall a b, U a -> U b -> hashf G a = hashf G b -> a = b) ->
+  (is_identity G = true -> forall a, U a -> unword G (hashf G a) = a) ->
+  (inv_closed G = true -> symmetric_on state (acts G) U) ->
+  (1 <= batch_size cfg)%Z ->
+  forall starts, (forall s, In s starts -> U s) -> starts <> [] ->
+  forall o, bfs G cfg starts = Ok o -> completed o = true ->
+  let L := fun i => layer state st_eq_dec (acts G) starts i in
+  let D := length (sizes o) in
+  sizes o = map (fun i => length (L i)) (seq 0 D) /\ (forall i, (i < D)%nat -> L i <> []) /\
+  (forall i, (D <= i)%nat -> L i = []) /\
+  (forall k l, In (k, l) (layers o) -> NoDup l /\ set_eq l (L k)) /\
+  (exists l, In ((D - 1)%nat, l) (layers o)) /\ (exists l, In (0%nat, l) (layers o)).
+Proof. exact bfs_completed_correct. Qed.
+Print Assumptions C01_bfs_completed_correct.
+
+(* the search reports completion whenever no limit can fire *)
+Theorem C01_bfs_completes :
+  forall (G : impl) (cfg : bfs_cfg) (U : state -> Prop),
+  closed state (acts G) U ->
+  (forall a b, U a -> U b -> hashf G a = hashf G b -> a = b) ->
+  (is_identity G = true -> forall a, U a -> unword G (hashf G a) = a) ->
+  (inv_closed G = true -> symmetric_on state (acts G) U) ->
+  (1 <= batch_size cfg)%Z ->
+  forall starts, (forall s, In s starts -> U s) -> starts <> [] ->
+  let L := fun i => layer state st_eq_dec (acts G) starts i in
+  stop cfg = None -> (forall i, (Z.of_nat (length (L i)) < max_explore cfg)%Z) ->
+  (exists d, (d <= N.to_nat (max_diameter cfg))%nat /\ L d = []) ->
+  exists o, bfs G cfg starts = Ok o /\ completed o = true.
+Proof. exact bfs_completes. Qed.
+Print Assumptions C01_bfs_completes.
+
+(* identical answer for every internal configuration: hash (width, seed, chunking), batch size, batching on/off, optional outputs *)
+Theorem C01_bfs_config_independent :
+  forall G1 G2 cfg1 cfg2 (U : state -> Prop) starts o1 o2,
+  acts G1 = acts G2 ->
+  closed state (acts G1) U ->
+  (forall a b, U a -> U b -> hashf G1 a = hashf G1 b -> a = b) ->
+  (is_identity G1 = true -> forall a, U a -> unword G1 (hashf G1 a) = a) ->
+  (inv_closed G1 = true -> symmetric_on state (acts G1) U) ->
+  (1 <= batch_size cfg1)%Z ->
+  closed state (acts G2) U ->
+  (forall a b, U a -> U b -> hashf G2 a = hashf G2 b -> a = b) ->
+  (is_identity G2 = true -> forall a, U a -> unword G2 (hashf G2 a) = a) ->
+  (inv_closed G2 = true -> symmetric_on state (acts G2) U) ->
+  (1 <= batch_size cfg2)%Z ->
+  (forall s, In s starts -> U s) -> starts <> [] ->
+  bfs G1 cfg1 starts = Ok o1 -> bfs G2 cfg2 starts = Ok o2 ->
+  completed o1 = true -> completed o2 = true ->
+  sizes o1 = sizes o2 /\
+  forall k l1 l2, In (k, l1) (layers o1) -> In (k, l2) (layers o2) -> set_eq l1 l2.
+Proof. exact bfs_config_independent. Qed.
+Print Assumptions C01_bfs_config_independent.
+
+(* Python loop bounds such as 10**6 are run on a binary counter; it is the same loop *)
 Theorem C01_loop_binary_equals_unary : forall (S R : Type) (body : S -> S + R) n s,
   loop_N body n s = loop_nat body (N.to_nat n) s.
 Proof. exact @loop_N_nat. Qed.
